@@ -376,3 +376,37 @@ func init() {
 		}
 	}
 }
+
+func init() {
+	explorations["anchored"] = func(p *Prog) {
+		// every top-level function declared in a file some property is anchored in, with its size
+		for i := 1; i <= 20; i++ {
+			prop := fmt.Sprintf("C%02d", i)
+			c := NewCtx(p, prop, "thorough")
+			for _, name := range anchoredFuncs(c) {
+				f := scopeFuncByNameInit(p)[name]
+				n := 0
+				if f != nil {
+					for _, g := range withAnon(f) {
+						for _, b := range g.Blocks {
+							n += len(b.Instrs)
+						}
+					}
+				}
+				fmt.Printf("%s\t%s\t%d\n", prop, name, n)
+			}
+		}
+	}
+}
+
+func scopeFuncByNameInit(p *Prog) map[string]*ssa.Function {
+	if scopeFuncByName == nil {
+		scopeFuncByName = map[string]*ssa.Function{}
+		for _, f := range p.ScopeFuncs() {
+			if _, dup := scopeFuncByName[funcName(f)]; !dup {
+				scopeFuncByName[funcName(f)] = f
+			}
+		}
+	}
+	return scopeFuncByName
+}
